@@ -154,6 +154,124 @@ Proof.
     rewrite in_map_iff. exists s. split; [reflexivity|exact Hs].
 Qed.
 
+(* ------------------------------------------------------------------ hiding by opaque layers (second loop of map) *)
+
+Lemma od_set_in : forall {V} (d : list (Z * V)) n x k v,
+  In (k, v) (od_set d n x) -> (k, v) = (n, x) \/ In (k, v) d.
+Proof.
+  intros V d n x k v. induction d as [|[k' v'] d IH]; cbn [od_set]; intros H.
+  - destruct H as [H|[]]. left. symmetry. exact H.
+  - destruct (k' =? n).
+    + destruct H as [H|H]; [left; symmetry; exact H|right; right; exact H].
+    + destruct H as [H|H]; [right; left; exact H|]. destruct (IH H) as [E|E]; [left; exact E|right; right; exact E].
+Qed.
+
+Lemma od_set_keys : forall {V} (d : list (Z * V)) n x k,
+  In k (map fst d) -> In k (map fst (od_set d n x)).
+Proof.
+  intros V d n x k. induction d as [|[k' v'] d IH]; cbn [od_set map fst]; intros H; [contradiction|].
+  destruct (k' =? n) eqn:E.
+  - cbn [map fst]. destruct H as [H|H]; [left; apply Z.eqb_eq in E; congruence|right; exact H].
+  - cbn [map fst]. destruct H as [H|H]; [left; exact H|right; apply IH; exact H].
+Qed.
+
+Definition step_f (d : fdict) (a : fdict) (n : Z) : fdict :=
+  match assoc n d with Some v => od_set a n v | None => a end.
+
+Lemma step_fold_in : forall d names acc k v,
+  In (k, v) (fold_left (step_f d) names acc) -> In (k, v) acc \/ assoc k d = Some v.
+Proof.
+  intros d names. induction names as [|n names IH]; intros acc k v H; [left; exact H|].
+  cbn [fold_left] in H. destruct (IH _ _ _ H) as [H1|H1]; [|right; exact H1].
+  unfold step_f in H1. destruct (assoc n d) as [x|] eqn:A; [|left; exact H1].
+  destruct (od_set_in _ _ _ _ _ H1) as [E|E]; [|left; exact E]. inversion E; subst. right. exact A.
+Qed.
+
+Lemma step_fold_keys : forall d names acc k,
+  In k (map fst acc) -> In k (map fst (fold_left (step_f d) names acc)).
+Proof.
+  intros d names. induction names as [|n names IH]; intros acc k H; [exact H|].
+  cbn [fold_left]. apply IH. unfold step_f. destruct (assoc n d); [apply od_set_keys; exact H|exact H].
+Qed.
+
+Lemma prune_step_unfold : forall d w names acc,
+  prune_step d (w, names) acc
+  = fold_left (step_f d) (permitted_names d names)
+              (if negb (restricted d names) && w_is_opaque w then [] else acc).
+Proof. reflexivity. Qed.
+
+Lemma prune_step_in : forall d wl acc k v,
+  In (k, v) (prune_step d wl acc) -> In (k, v) acc \/ assoc k d = Some v.
+Proof.
+  intros d [w names] acc k v H. rewrite prune_step_unfold in H.
+  destruct (step_fold_in _ _ _ _ _ H) as [H1|H1]; [|right; exact H1].
+  destruct (negb (restricted d names) && w_is_opaque w); [contradiction|left; exact H1].
+Qed.
+
+Lemma prune_fold_in : forall d rq acc k v,
+  (forall k' v', In (k', v') acc -> assoc k' d = Some v') ->
+  In (k, v) (fold_left (fun acc wl => prune_step d wl acc) rq acc) -> assoc k d = Some v.
+Proof.
+  intros d rq. induction rq as [|wl rq IH]; intros acc k v Inv H; [apply Inv; exact H|].
+  cbn [fold_left] in H. apply (IH (prune_step d wl acc)); [|exact H].
+  intros k' v' H'. destruct (prune_step_in _ _ _ _ _ H') as [E|E]; [apply Inv; exact E|exact E].
+Qed.
+
+Lemma prune_in : forall d rq k v, In (k, v) (prune d rq) -> assoc k d = Some v.
+Proof. intros d rq k v H. apply (prune_fold_in d rq [] k v); [intros ? ? []|exact H]. Qed.
+
+Lemma assoc_to_fdict : forall fl k lim srcs,
+  assoc k (to_fdict fl) = Some (lim, srcs) -> In (k, lim, srcs) fl.
+Proof.
+  intros fl k lim srcs H. apply assoc_in in H. unfold to_fdict in H. rewrite in_map_iff in H.
+  destruct H as [[[n l] ss] [E Hin]]. cbn [fst snd] in E. inversion E; subst. exact Hin.
+Qed.
+
+Lemma in_rendered : forall d rq n lim s,
+  In (n, lim, s) (flatten_entries (of_fdict (prune d rq))) ->
+  exists srcs, assoc n d = Some (lim, srcs) /\ In s srcs.
+Proof.
+  intros d rq n lim s H. apply in_flatten_entries in H. destruct H as [srcs [Hin Hs]].
+  unfold of_fdict in Hin. rewrite in_map_iff in Hin. destruct Hin as [[k [l ss]] [E Hin]].
+  cbn [fst snd] in E. inversion E; subst. exists srcs. split; [apply prune_in with (rq := rq); exact Hin|exact Hs].
+Qed.
+
+Lemma filter_len_le : forall {A} (f : A -> bool) l, (length (filter f l) <= length l)%nat.
+Proof.
+  intros A f l. induction l as [|y l IH]; [cbn; lia|]. cbn [filter]. destruct (f y); cbn [length]; lia.
+Qed.
+
+Lemma filter_all_length : forall {A} (f : A -> bool) l,
+  length (filter f l) = length l -> forall x, In x l -> f x = true.
+Proof.
+  intros A f l. induction l as [|y l IH]; intros H x Hin; [contradiction|].
+  cbn [filter] in H. destruct (f y) eqn:E.
+  - cbn [length] in H. destruct Hin as [Hx|Hx]; [subst; exact E|apply IH; [lia|exact Hx]].
+  - pose proof (filter_len_le f l). cbn [length] in H. lia.
+Qed.
+
+(* a layer that was there disappears in a step of the loop only if the layer of that step is opaque and every
+   one of its map layers is permitted without a limit: a denied or limited opaque layer hides nothing *)
+Lemma prune_step_hides : forall d w names acc k,
+  In k (map fst acc) -> ~ In k (map fst (prune_step d (w, names) acc)) ->
+  w_is_opaque w = true /\ forall n, In n names -> exists srcs, assoc n d = Some (None, srcs).
+Proof.
+  intros d w names acc k Hin Hnot. rewrite prune_step_unfold in Hnot.
+  destruct (negb (restricted d names) && w_is_opaque w) eqn:E.
+  - apply andb_true_iff in E. destruct E as [R O]. split; [exact O|].
+    apply negb_true_iff in R. unfold restricted in R. apply orb_false_iff in R. destruct R as [R1 R2].
+    apply negb_false_iff in R1. apply Nat.eqb_eq in R1.
+    intros n Hn. unfold permitted_names in *.
+    pose proof (filter_all_length _ _ R1 n Hn) as S. cbn beta in S.
+    destruct (assoc n d) as [[lim srcs]|] eqn:A; [|cbn in S; discriminate].
+    assert (P : In n (filter (fun n0 => is_some (assoc n0 d)) names)).
+    { apply filter_In. split; [exact Hn|rewrite A; reflexivity]. }
+    destruct lim as [g|]; [|exists srcs; reflexivity].
+    exfalso. rewrite <- not_true_iff_false in R2. apply R2. apply existsb_exists. exists n.
+    split; [exact P|rewrite A; reflexivity].
+  - exfalso. apply Hnot. apply step_fold_keys. exact Hin.
+Qed.
+
 (* ------------------------------------------------------------------ WMS GetMap *)
 
 Lemma wms_map_entry : forall tree req r rl cov n lim s,
@@ -170,16 +288,16 @@ Proof.
     assert (K : r_kind r = A_full).
     { unfold authorized_layers in AZ. destruct (r_kind r); try discriminate; reflexivity. }
     inversion H; subst. clear H.
-    apply in_flatten_entries in Hin. destruct Hin as [srcs [Hin Hs]].
-    rewrite in_map_iff in Hin. destruct Hin as [[k ss] [Heq Hin]]. cbn [fst snd] in Heq. inversion Heq; subst.
+    apply in_rendered in Hin. destruct Hin as [srcs [A Hs]]. apply assoc_to_fdict in A.
+    rewrite in_map_iff in A. destruct A as [[k ss] [Heq A]]. cbn [fst snd] in Heq. inversion Heq; subst.
     split; [unfold permitted; rewrite K; reflexivity|]. split.
     + exists srcs. split; assumption.
     + intros K2. rewrite K in K2. discriminate.
   - destruct (filter_actual auth req (select_map (server_layers tree) req [])) as [fl|] eqn:F; [|discriminate].
     inversion H; subst. clear H.
-    apply in_flatten_entries in Hin. destruct Hin as [srcs [Hin Hs]].
-    destruct (filter_actual_in _ _ _ _ _ _ _ F Hin) as [A Hact].
-    destruct (authorized_some_permitted _ _ _ _ _ _ ND AZ A) as [P [_ Hp]].
+    apply in_rendered in Hin. destruct Hin as [srcs [A Hs]]. apply assoc_to_fdict in A.
+    destruct (filter_actual_in _ _ _ _ _ _ _ F A) as [A2 Hact].
+    destruct (authorized_some_permitted _ _ _ _ _ _ ND AZ A2) as [P [_ Hp]].
     split; [exact P|]. split; [exists srcs; split; assumption|]. intros _. exact Hp.
 Qed.
 
@@ -195,6 +313,13 @@ Proof.
   exists n, srcs. split; [exact H1|]. split; [exact H2|exact P].
 Qed.
 
+Lemma prune_nil : forall rq, prune [] rq = [].
+Proof.
+  intros rq. destruct (prune [] rq) as [|[k v] l] eqn:E; [reflexivity|].
+  assert (H : In (k, v) (prune [] rq)) by (rewrite E; left; reflexivity).
+  apply prune_in in H. discriminate.
+Qed.
+
 Lemma wms_map_none_no_log : forall tree req r,
   r_kind r <> A_full -> r_kind r <> A_partial -> wms_log (wms_map tree req (Some r)) = [].
 Proof.
@@ -202,11 +327,13 @@ Proof.
   destruct (negb (all_known (server_layers tree) req)); [reflexivity|].
   unfold authorized_layers. destruct (r_kind r) eqn:K; try congruence; try reflexivity.
   - destruct (filter_actual [] req (select_map (server_layers tree) req [])) as [fl|] eqn:F; [|reflexivity].
-    destruct fl as [|[[n lim] srcs] fl]; [reflexivity|].
-    destruct (filter_actual_in _ _ _ _ _ _ _ F (or_introl eq_refl)) as [A _]. discriminate.
+    destruct fl as [|[[n lim] srcs] fl].
+    + cbn [to_fdict map]. rewrite prune_nil. reflexivity.
+    + destruct (filter_actual_in _ _ _ _ _ _ _ F (or_introl eq_refl)) as [A _]. discriminate.
   - destruct (filter_actual [] req (select_map (server_layers tree) req [])) as [fl|] eqn:F; [|reflexivity].
-    destruct fl as [|[[n lim] srcs] fl]; [reflexivity|].
-    destruct (filter_actual_in _ _ _ _ _ _ _ F (or_introl eq_refl)) as [A _]. discriminate.
+    destruct fl as [|[[n lim] srcs] fl].
+    + cbn [to_fdict map]. rewrite prune_nil. reflexivity.
+    + destruct (filter_actual_in _ _ _ _ _ _ _ F (or_introl eq_refl)) as [A _]. discriminate.
 Qed.
 
 Lemma wms_map_explicit_403 : forall tree req r n srcs,
@@ -227,7 +354,7 @@ Lemma wms_map_unauth_401 : forall tree req r,
   all_known (server_layers tree) req = true -> r_kind r = A_unauth -> wms_map tree req (Some r) = W_401.
 Proof. intros tree req r AK K. unfold wms_map, authorized_layers. rewrite AK, K. reflexivity. Qed.
 
-(* no explicitly requested layer is denied: the answer is the render list of the permitted layers, in order *)
+(* no explicitly requested layer is denied: the answer is the render list of permitted layers *)
 Lemma wms_map_implicit_dropped : forall tree req r,
   NoDup (map fst (r_layers r)) ->
   all_known (server_layers tree) req = true ->
@@ -236,22 +363,23 @@ Lemma wms_map_implicit_dropped : forall tree req r,
   exists rl, wms_map tree req (Some r) = W_ok rl (r_lim r) /\
              forall n, In n (map (fun e : rentry => fst (fst e)) rl) -> permitted Ft_map r n = true.
 Proof.
-  intros tree req r ND AK Hf Hu H. unfold wms_map. rewrite AK. cbn [negb].
-  destruct (authorized_layers Ft_map (Some r)) as [| |auth cov] eqn:AZ.
-  - unfold authorized_layers in AZ. destruct (r_kind r); congruence.
-  - unfold authorized_layers in AZ. destruct (r_kind r); congruence.
-  - assert (C : cov = r_lim r).
-    { unfold authorized_layers in AZ. destruct (r_kind r); inversion AZ; reflexivity. }
-    subst cov.
-    destruct (filter_actual_keeps auth req (select_map (server_layers tree) req [])) as [fl [F _]].
-    { intros n srcs Hin A. destruct (mem n req) eqn:M; [|reflexivity]. exfalso.
-      apply mem_true_in in M. apply (H n srcs Hin); [|exact M].
-      apply (authorized_none_denied _ _ _ _ _ ND AZ A). }
-    rewrite F. eexists. split; [reflexivity|].
-    intros n Hin. rewrite in_map_iff in Hin. destruct Hin as [[[n' lim] s] [Heq Hin]]. cbn in Heq. subst n'.
-    apply in_flatten_entries in Hin. destruct Hin as [srcs [Hin Hs]].
-    destruct (filter_actual_in _ _ _ _ _ _ _ F Hin) as [A _].
-    destruct (authorized_some_permitted _ _ _ _ _ _ ND AZ A) as [P _]. exact P.
+  intros tree req r ND AK Hf Hu H.
+  assert (W : exists rl, wms_map tree req (Some r) = W_ok rl (r_lim r)).
+  { unfold wms_map. rewrite AK. cbn [negb].
+    destruct (authorized_layers Ft_map (Some r)) as [| |auth cov] eqn:AZ.
+    - unfold authorized_layers in AZ. destruct (r_kind r); congruence.
+    - unfold authorized_layers in AZ. destruct (r_kind r); congruence.
+    - assert (C : cov = r_lim r).
+      { unfold authorized_layers in AZ. destruct (r_kind r); inversion AZ; reflexivity. }
+      subst cov.
+      destruct (filter_actual_keeps auth req (select_map (server_layers tree) req [])) as [fl [F _]].
+      { intros n srcs Hin A. destruct (mem n req) eqn:M; [|reflexivity]. exfalso.
+        apply mem_true_in in M. apply (H n srcs Hin); [|exact M].
+        apply (authorized_none_denied _ _ _ _ _ ND AZ A). }
+      rewrite F. eexists. reflexivity. }
+  destruct W as [rl W]. exists rl. split; [exact W|].
+  intros n Hin. rewrite in_map_iff in Hin. destruct Hin as [[[n' lim] s] [Heq Hin]]. cbn in Heq. subst n'.
+  destruct (wms_map_entry _ _ _ _ _ _ _ _ ND W Hin) as [P _]. exact P.
 Qed.
 
 (* ------------------------------------------------------------------ combined_layers *)
@@ -727,6 +855,21 @@ Example ex_map_explicit_hyps :
   all_known (server_layers ex_tree) [1; 4] = true /\ In (4, [40]) (select_map (server_layers ex_tree) [1; 4] []) /\
   permitted Ft_map ex_cb 4 = false.
 Proof. repeat split; try reflexivity. cbn. right. left. reflexivity. Qed.
+(* an opaque layer (2) above layer 1: it hides layer 1 only when it is permitted completely *)
+Definition ex_tree_op : list wlayer := [WLeaf 1 false [10] []; WGroup 3 None [WLeaf 2 true [20] []]].
+Definition ex_cb_op (p2 : perm) : cbres := mk_cbres A_partial [(1, mk_perm F_true F_false F_false None); (2, p2)] None.
+Example ex_opaque_full : wms_map ex_tree_op [1; 3] (Some (ex_cb_op (mk_perm F_true F_false F_false None)))
+                         = W_ok [(2, None, 20)] None.
+Proof. reflexivity. Qed.
+Example ex_opaque_limited : wms_map ex_tree_op [1; 3] (Some (ex_cb_op (mk_perm F_true F_false F_false (Some 7))))
+                            = W_ok [(1, None, 10); (2, Some 7, 20)] None.
+Proof. reflexivity. Qed.
+Example ex_opaque_denied : wms_map ex_tree_op [1; 3] (Some (ex_cb_op (mk_perm F_false F_false F_false None)))
+                           = W_ok [(1, None, 10)] None.
+Proof. reflexivity. Qed.
+(* the callback is asked about the hidden layer too *)
+Example ex_opaque_cbarg : wms_map_cbarg ex_tree_op [1; 3] = [1; 2].
+Proof. reflexivity. Qed.
 Example ex_fi_gate_in : wms_featureinfo ex_tree [2] [2] (Some ex_cb) (fun g => true) = W_ok [(3, Some 7, 31)] (Some 8).
 Proof. reflexivity. Qed.
 Example ex_fi_gate_out : wms_featureinfo ex_tree [2] [2] (Some ex_cb) (fun g => g =? 7) = W_ok [] (Some 8).
